@@ -159,6 +159,40 @@ Section Rev.
     end.
 End Rev.
 
+(* ---- recovery as a sequence of file-system calls (it can itself be interrupted) ----
+   FileStorage::new / Drop: WriteAheadLog::repair cuts a torn tail (one set_len, only when there is one);
+   apply_wal undoes the records newest first; wal.clear().
+     g = false: the code without the position guard: every record is applied, the log is cleared at the end.
+     g = true : fixes/C07-wal-position.diff: the guard is evaluated before each record (false = it fired:
+                apply_wal returns the error, nothing further is issued), and each record is REMOVED from the
+                log as soon as it has been undone (WriteAheadLog::remove_last: set_len to its start), so an
+                interrupted recovery never replays a record on top of the older ones that followed it. *)
+Definition rec_size (r : nat * bytes) : nat := 16 + length (snd r).
+Definition log_size (rs : list (nat * bytes)) : nat := list_sum (map rec_size rs).
+
+Definition undo_call (r : nat * bytes) : sys :=
+  match snd r with
+  | [] => DataSetLen (fst r)
+  | v => DataWrite (fst r) v
+  end.
+
+(* rr: the records newest first; d: the data they are applied to *)
+Fixpoint undo_calls (g : bool) (rr : list (nat * bytes)) (d : bytes) : list sys * bool :=
+  match rr with
+  | [] => ([], true)
+  | r :: rest =>
+    if g && Nat.ltb (length d) (fst r) then ([], false)
+    else
+      let '(cs, ok) := undo_calls g rest (apply_rec d r) in
+      (undo_call r :: (if g then [WalSetLen (log_size rest)] else []) ++ cs, ok)
+  end.
+
+Definition recovery_calls (g : bool) (st : fstate) : list sys * bool :=
+  let rs := records (wal st) in
+  let '(cs, ok) := undo_calls g (rev rs) (data st) in
+  ((if Nat.ltb (log_size rs) (length (wal st)) then [WalSetLen (log_size rs)] else []) ++
+   cs ++ (if ok then [WalSetLen 0] else []), ok).
+
 (* writes issued by the storage layer never start beyond the end of the file *)
 Fixpoint well_positioned (d : bytes) (ops : list op) : bool :=
   match ops with
